@@ -97,6 +97,7 @@ fn spawn(spec: &ProcSpec, sched_dir: &str) -> Result<Proc, String> {
         .args(&spec.extra)
         .env("LD_PRELOAD", shim_path())
         .env("VERIF_HASH_SEED", spec.hseed.to_string())
+        .env("VERIF_DIR_SEED", spec.hseed.to_string())
         .env("VERIF_SCHED_DIR", sched_dir)
         .env("VERIF_SCHED_OUT", ann_w.to_string())
         .env("VERIF_SCHED_IN", go_r.to_string())
